@@ -22,6 +22,7 @@
 #include <sstream>
 #include <string>
 #include <vector>
+#include <deque>
 
 using namespace lm::ngram;
 
@@ -52,7 +53,7 @@ struct AnyModel {
 template <class M> struct Holder : public AnyModel {
   Names names;
   M *m;
-  Holder(const char *file, const Opts &o, int rest) : m(NULL) {
+  Holder(const char *file, const Opts &o, int rest) : m(NULL), shared_(NULL) {
     Config config;
     config.messages = NULL; config.arpa_complain = Config::NONE; config.show_progress = false;
     config.unknown_missing = lm::SILENT; config.sentence_marker_missing = lm::SILENT;
@@ -63,8 +64,68 @@ template <class M> struct Holder : public AnyModel {
     if (rest == 1) config.rest_function = Config::REST_MAX;
     if (rest == 2) { config.rest_function = Config::REST_LOWER; config.rest_lower_files = o.lower; }
     m = new M(file, config);
+    shared_ = new RuleScore<M>(*m, scratch_); cur_ = &scratch_; rng_ = 88172645463325252ULL;
   }
-  ~Holder() { delete m; }
+  ~Holder() { delete shared_; delete m; }
+
+  // ---- API history: ONE RuleScore object reused through Reset() / Reset(ChartState&) for every rule application
+  ChartState scratch_;
+  RuleScore<M> *shared_;
+  ChartState *cur_;          // what shared_ currently writes to (only compared, never dereferenced)
+  uint64_t rng_;
+  unsigned Rand() { rng_ ^= rng_ << 13; rng_ ^= rng_ >> 7; rng_ ^= rng_ << 17; return (unsigned)(rng_ >> 11); }
+  // returns true when the rule is scored into scratch_ and has to be copied out after Finish()
+  bool ResetShared(ChartState &node_out) {
+    unsigned r = Rand() % 3;
+    if (r == 0 && cur_ == &scratch_) { shared_->Reset(); return true; }          // stale contents stay
+    if (r == 1) { memset(&scratch_, 0xAB, sizeof scratch_); shared_->Reset(scratch_); cur_ = &scratch_; return true; }
+    memset(&node_out, 0xAB, sizeof node_out); shared_->Reset(node_out); cur_ = &node_out; return false;
+  }
+  // a history that leaves the object with a closed left state (or not) before the derivation starts
+  void Prime(const std::vector<std::string> &toks) {
+    uint64_t h = 1469598103934665603ULL;
+    for (size_t i = 0; i < toks.size(); ++i) for (size_t k = 0; k <= toks[i].size(); ++k) { h ^= (unsigned char)toks[i].c_str()[k]; h *= 1099511628211ULL; }
+    rng_ = h | 1;
+    memset(&scratch_, 0xAB, sizeof scratch_);
+    shared_->Reset(scratch_); cur_ = &scratch_;
+    switch (Rand() % 4) {
+      case 0: break;
+      case 1: shared_->BeginSentence(); shared_->Finish(); break;
+      case 2: shared_->Terminal(0); shared_->Finish(); break;                      // <unk>: independent left
+      default: shared_->BeginSentence(); for (size_t i = 0; i < toks.size(); ++i) if (toks[i] != "(" && toks[i] != ")") shared_->Terminal(Index(toks[i])); shared_->Finish();
+    }
+  }
+  // bottom-up like a chart decoder: all non-terminals of a rule are complete before the rule itself is applied
+  float RuleReused(size_t &pos, const std::vector<std::string> &toks, ChartState &out, bool begin, bool begin_nt, std::ostringstream &o) {
+    std::deque<ChartState> kids; std::vector<float> kp; std::vector<long> items;   // >= 0: word, < 0: -(kid+1)
+    while (pos < toks.size() && toks[pos] != ")") {
+      if (toks[pos] == "(") {
+        ++pos;
+        kids.push_back(ChartState());
+        float p = RuleReused(pos, toks, kids.back(), false, begin_nt, o);
+        o << fhex(p) << ' ' << ChartStr(kids.back()) << " | ";
+        kp.push_back(p); items.push_back(-(long)kids.size());
+      } else {
+        items.push_back((long)Index(toks[pos]));
+        ++pos;
+      }
+    }
+    if (pos < toks.size()) ++pos;
+    bool copy = ResetShared(out);
+    RuleScore<M> &rs = *shared_;
+    if (begin) rs.BeginSentence();
+    bool first = !begin;
+    for (size_t i = 0; i < items.size(); ++i) {
+      if (items[i] < 0) {
+        size_t k = (size_t)(-items[i] - 1);
+        if (first && begin_nt) rs.BeginNonTerminal(kids[k], kp[k]); else rs.NonTerminal(kids[k], kp[k]);
+      } else rs.Terminal((lm::WordIndex)items[i]);
+      first = false;
+    }
+    float ret = rs.Finish();
+    if (copy) out = scratch_;
+    return ret;
+  }
 
   std::string Word(lm::WordIndex w) { return w < names.names.size() ? names.names[w] : std::string("?"); }
   lm::WordIndex Index(const std::string &s) { return m->GetVocabulary().Index(s); }
@@ -115,6 +176,14 @@ template <class M> struct Holder : public AnyModel {
     ChartState root;
     float p = Rule(pos, toks, root, start == "B", begin_nt, o);
     o << fhex(p) << ' ' << ChartStr(root);
+    // the same derivation on the reused object: must be identical, bit for bit
+    std::ostringstream o2;
+    Prime(toks);
+    pos = 0;
+    ChartState root2;
+    float p2 = RuleReused(pos, toks, root2, start == "B", begin_nt, o2);
+    o2 << fhex(p2) << ' ' << ChartStr(root2);
+    if (o.str() != o2.str()) return "RESETDIFF fresh: " + o.str() + " %% reused: " + o2.str();
     return o.str();
   }
 
